@@ -8,7 +8,7 @@ From RecordUpdate Require Import RecordSet.
 From Coq Require Import ZArith NArith List Bool Strings.Byte Strings.String.
 Require Import Regen.Base.Bytes Regen.Base.Calendar Regen.Dec.Dec.
 Require Import Regen.Ledger.Types Regen.Ledger.Msgs Regen.Ledger.Orm Regen.Ledger.BaseMsgs
-               Regen.Ledger.BasketMsgs Regen.Ledger.MarketMsgs Regen.Ledger.Step.
+               Regen.Ledger.BasketMsgs Regen.Ledger.MarketMsgs Regen.Ledger.Step Regen.Ledger.SpellingModel.
 Import ListNotations RecordSetNotations.
 Local Open Scope Z_scope.
 
@@ -241,7 +241,9 @@ Definition event_eqb (x y : event) : bool :=
 
 Inductive item :=
 | IBegin (t : ts) (ok : bool) (rows : list rowv)
-| IMsg (m : msg) (ok : bool) (resp : response) (evs : list event) (rows : list rowv).
+| IMsg (m : msg) (ok : bool) (resp : response) (evs : list event) (rows : list rowv)
+(* a message in which an address string that ValidateBasic or a handler compares is not in canonical spelling *)
+| IMsgSp (sp : spelling) (m : msg) (ok : bool) (resp : response) (evs : list event) (rows : list rowv).
 
 Record lcase := { lc_id : N; lc_genesis : list rowv; lc_items : list item; lc_final : list rowv }.
 
@@ -270,6 +272,22 @@ Fixpoint run_items (idx : N) (t : ts) (s : state) (l : list item) (acc : list (N
       end
   | IMsg m ok resp evs rows :: l' =>
       let '(s', out) := deliver {| e_time := t; e_authority := authority |} s m in
+      match out with
+      | OOk r es =>
+          if ok then
+            let acc := if response_eqb r resp then acc else acc ++ [(idx, 2%N, [])] in
+            let acc := if list_eqb event_eqb es evs then acc else acc ++ [(idx, 3%N, [])] in
+            let acc := match bad_rows s' rows with [] => acc | b => acc ++ [(idx, 4%N, b)] end in
+            run_items (idx + 1)%N t s' l' acc
+          else run_items (idx + 1)%N t s l' (acc ++ [(idx, 1%N, [])])
+      | _ =>
+          if ok then
+            (* resynchronise on the observed rows so that one disagreement is reported once *)
+            run_items (idx + 1)%N t (fold_left (fun s r => set_row r s) rows s) l' (acc ++ [(idx, 1%N, [])])
+          else run_items (idx + 1)%N t s l' acc
+      end
+  | IMsgSp sp m ok resp evs rows :: l' =>
+      let '(s', out) := deliver_sp sp {| e_time := t; e_authority := authority |} s m in
       match out with
       | OOk r es =>
           if ok then
